@@ -168,8 +168,15 @@ EXPORT_SYMBOL(invoke_safe_str_constraint_handler);
 int handle_str_bos_overflow(const char *restrict msg, char *restrict dest,
                             const rsize_t dmax) {
     /* clear the min of strlen and dmax(=destbos) */
-    size_t len = strnlen_s(dest, dmax);
+    size_t len;
     errno_t err = EOVERFLOW;
+    if (likely(dmax > 0 && dmax <= RSIZE_MAX_STR)) {
+        len = strnlen_s(dest, dmax);
+    } else {
+        /* dmax is 0, unknown (BOS_UNKNOWN) or above the limit: strnlen_s would
+           report a second violation. Clear just the first element. */
+        len = dmax ? 1 : 0;
+    }
     if (unlikely(len > RSIZE_MAX_STR)) {
         len = 1;
         err = ESLEMAX;
